@@ -69,20 +69,24 @@ P = {
 
 # additions of the sixth round of seeded changes (appended to the coverage text)
 ADD = {
- "C01": "Flat texts up to 64 KiB (thousands of blank lines, comment lines, statements, rules, elements, one long string or comment) go through the binary with their expected output.",
- "C02": "A pattern may itself run next (inside a function it calls).",
- "C03": "The reader also delivers its last bytes together with io.EOF (whole stream, and at every truncation point).",
- "C04": "A sample of rejected roots (cyclic, inexpressible, non-finite) goes through the binary with -o FILE (absent, existing, the input file itself): non-zero exit, a diagnostic, and the file afterwards absent or a well-formed document.",
+ "C20": "The large index on a missing intermediate of the store.",
+ "C19": "A nested array pattern matching a proper prefix of the inner array; block bodies of one expression statement.",
+ "C17": "Sub-check bare-print: bare prints interleaved with stores below $ and assignments of $.",
+ "C06": "Regex literals in operand positions (x ~ /re/ + s groups as x ~ (/re/ + s)).",
+ "C01": "Flat texts up to 64 KiB (thousands of blank lines, comment lines, statements, rules, elements, one long string or comment) go through the binary with their expected output. 18 ways of bringing a value into being x 18 immediate uses, each as the only thing a fresh process does.",
+ "C02": "A pattern may itself run next (inside a function it calls). BEGIN / END rules that assign $ (the next one starts with $ null again).",
+ "C03": "The reader also delivers its last bytes together with io.EOF (whole stream, and at every truncation point). The with-EOF reader mode is also combined with corrupted bytes and stray text.",
+ "C04": "A sample of rejected roots (cyclic, inexpressible, non-finite) goes through the binary with -o FILE (absent, existing, the input file itself): non-zero exit, a diagnostic, and the file afterwards absent or a well-formed document. Two json() results in one statement.",
  "C05": "Sub-check operator-reentered: a recursive function whose recursive call is the right / left / both operands of the operator. `is` with 11 words that name no type x every operand: false or refused (direct oracle).",
  "C07": "An ENDFILE rule in every program and, in a third of the cases, further input values whose root is an object, a number or a string.",
- "C08": "Match cases with several alternatives of which the earlier ones bind names and then fail.",
- "C09": "A match case (expression or block body) that binds the name of a variable, followed by assignments to that variable.",
+ "C08": "Match cases with several alternatives of which the earlier ones bind names and then fail. Return from for-in loops over strings, arrays and objects.",
+ "C09": "A match case (expression or block body) that binds the name of a variable, followed by assignments to that variable. Pattern names bound to containers and assigned to; a store below a scalar that the right-hand side has just made.",
  "C10": "The n-th execution of a program reads the same input bytes through a different reader (whole, with EOF attached, one byte per read, half reads); one program of a session may run in the library's fuzzing mode; a deep-recursion family (40-1000 frames, to 4090 thorough); programs without input files are compared with a fresh process too.",
- "C11": "Kits storing to a method-named member of a number, string or array (=, ++, +=); splice recipe ends-mid-construct (the text stops on its last byte inside a construct).",
+ "C11": "Kits storing to a method-named member of a number, string or array (=, ++, +=); splice recipe ends-mid-construct (the text stops on its last byte inside a construct). Kits comparing a container with itself; illegal bytes that other tools treat as blanks.",
  "C12": "Lines longer than 120 bytes (very wide gaps, a 200-byte comment); kits with the fault in the first or middle one of three constructs of a kind; an unknown $-variable in each for-in variable position.",
- "C13": "A quoted literal and a numeric literal with the same spelling in one program, used type-sensitively in either order.",
- "C15": "Arrays re-made from one all-literal array literal that is evaluated again and again.",
- "C16": "pluck: a store into one member of a multi-key result leaves the other members (absent ones included) as they were.",
+ "C13": "A quoted literal and a numeric literal with the same spelling in one program, used type-sensitively in either order. Escaped backslash followed by n / t; a word glued to a following $.",
+ "C15": "Arrays re-made from one all-literal array literal that is evaluated again and again. Two empty arrays of the document; one length() site seeing a string, an object and the array.",
+ "C16": "pluck: a store into one member of a multi-key result leaves the other members (absent ones included) as they were. Two length() results in one statement.",
  "C20": "Recursion shapes repeated (eight times in one run) and repeated-per-value (once for each of 40 input values).",
 }
 
